@@ -9,6 +9,7 @@ Definition set_mem (x : A) (l : list A) : bool := existsb (eqb x) l.
 Definition set_subset (a b : list A) : bool := forallb (fun x => set_mem x b) a.
 Definition set_eqb (a b : list A) : bool := set_subset a b && set_subset b a.
 Definition set_diff (a b : list A) : list A := filter (fun x => negb (set_mem x b)) a.
+Definition set_inter (a b : list A) : list A := filter (fun x => set_mem x b) a.
 Fixpoint dedup (l : list A) : list A :=
   match l with [] => [] | x :: t => if set_mem x t then dedup t else x :: dedup t end.
 Definition card (l : list A) : Z := Z.of_nat (List.length (dedup l)).
